@@ -235,11 +235,48 @@ def make_judges(ctx):
                 ctx.violation('limits', 'after resize: ' + detail, ev)
         ctx.judged(('resize', sc > 0, sc == 1, bi == 0, post.n_frac - pre.n_frac), True, None, elements=len(us))
         ctx.floor_hit(('resize',))
-    return [store_judge, read_judge, resize_judge]
+    def equal_like_judge(ev):
+        """dst.equal(src) and src.like(template) with a scaled source or destination store the VALUE of the source: code = Q((v - b)/s) in the
+        destination's format, like the other store routes"""
+        if ev.kind != 'method' or ev.op not in ('equal', 'like') or len(ev.args) < 1 or not isinstance(ev.args[0], Fxp):
+            return
+        snaps = {id(o): (p_, q_) for o, p_, q_ in zip(ev.operands, ev.pre, ev.post)}
+        if ev.op == 'equal':
+            if len(ev.args) > 1 or ev.kwargs.get('index') is not None:
+                return
+            src = snaps.get(id(ev.args[0]), (None, None))[0]
+            dpre, dst = snaps.get(id(ev.receiver), (None, None))
+        else:
+            src = snaps.get(id(ev.receiver), (None, None))[0]
+            dpre = snaps.get(id(ev.args[0]), (None, None))[0]
+            dst = ev.result_snap
+        if src is None or dpre is None or src.is_complex or dpre.is_complex:
+            return
+        if (src.scale == 1 and src.bias == 0) and (dpre.scale == 1 and dpre.bias == 0):
+            return
+        sa, da = affine_of(src), affine_of(dpre)
+        if sa is None or da is None or da[0] == 0 or not (1 <= dpre.n_word <= 16 and -8 <= dpre.n_frac <= dpre.n_word + 8) or not (1 <= src.n_word <= 24):
+            ctx.skip('equal/like:outside domain')
+            return
+        vals = [sa[0] * k * R.lsb(src.n_frac) + sa[1] for k in src.codes]
+        us = [(v - da[1]) / da[0] for v in vals]
+        if not all(is_double(v) and is_double(v - da[1]) and is_double(u) and is_double(u * F(2) ** dpre.n_frac) for v, u in zip(vals, us)):
+            ctx.skip('equal/like:an intermediate is not an exact double')
+            return
+        if ev.exc is not None or dst is None:
+            ctx.violation('raises', '%s between scaled objects raised %s' % (ev.op, type(ev.exc).__name__ if ev.exc else 'nothing but gave no object'), ev, key='scaled.store_raises')
+            return
+        want = [R.quantize(u, dpre.signed, dpre.n_word, dpre.n_frac, dpre.rounding, dpre.overflow)[0] for u in us]
+        if dst.codes != want or dst.fmt() != dpre.fmt():
+            ctx.violation('wrong_code', '%s: source %s (scale=%r, bias=%r) values %s into %s (scale=%r, bias=%r): stored %s, Q((v-b)/s) = %s' % (
+                ev.op, R.dtype_fxp(*src.fmt()), src.scale, src.bias, [str(v) for v in vals[:3]], R.dtype_fxp(*dpre.fmt()), dpre.scale, dpre.bias, dst.codes[:3], want[:3]), ev)
+        ctx.judged(('equal-like', ev.op, src.scale != 1 or src.bias != 0, dpre.scale != 1 or dpre.bias != 0), True, None, elements=len(want))
+        ctx.floor_hit(('route', ev.op))
+    return [store_judge, read_judge, resize_judge, equal_like_judge]
 
 
 def floors(tier):
-    return [('route', r) for r in ('constructor', 'call', 'setitem', 'set_val')] + [('carrier', c) for c in ('int8', 'int16', 'int32', 'uint8', 'uint16', 'uint64', 'float32', 'float16', 'Fxp', 'Fxp-scaled', 'int', 'float', 'float64', 'list')] + [('read', 'get_val'), ('read', 'astype'), ('read', '__call__'), ('read', 'element'), ('inferred',), ('resize',), ('raw-then-read',)] + \
+    return [('route', r) for r in ('constructor', 'call', 'setitem', 'set_val', 'equal', 'like')] + [('read-huge-integer-bias',)] + [('carrier', c) for c in ('int8', 'int16', 'int32', 'uint8', 'uint16', 'uint64', 'float32', 'float16', 'Fxp', 'Fxp-scaled', 'int', 'float', 'float64', 'list')] + [('read', 'get_val'), ('read', 'astype'), ('read', '__call__'), ('read', 'element'), ('inferred',), ('resize',), ('raw-then-read',)] + \
            [('params', True, False, True), ('params', False, False, True), ('params', True, True, False), ('params', True, False, False), ('params', False, False, False)]
 
 
@@ -317,6 +354,30 @@ def run_case(case, ctx):
             _try(lambda: xr.get_val())
             _try(lambda: xr.resize(dtype=R.dtype_fxp(s, max(2, min(20, w + 1)), max(-8, nf))))
             _try(lambda: xr.astype(float))
+    # equal() and like() between plain and scaled objects (either side, both sides)
+    if x is not None and i % 3 == 0:
+        plain = _try(lambda: Fxp(float(us[0]) if G.can_carry(us[0], 'pyfloat') else 0.0, s, w, nf, rounding=r, overflow=o))
+        other = _try(lambda: Fxp(inp(vs[0]), s, min(16, w + 2), nf, rounding=r, overflow=o, scale=float(sc) * 2, bias=bias))
+        xs_ = _try(lambda: Fxp(inp(vs[1 % len(vs)]), s, w, nf, **kw))
+        for srcf, dstf in ((plain, xs_), (xs_, plain), (other, xs_), (xs_, other)):
+            if srcf is not None and dstf is not None:
+                d1 = _try(lambda: dstf.deepcopy())
+                if d1 is not None:
+                    _try(lambda: d1.equal(srcf))
+                    _try(lambda: d1.get_val())
+                _try(lambda: srcf.like(dstf))
+    # integer valued objects with an integer bias next to the limits of 64 bits: the value read is scale*code + bias, in python integers if need be
+    if i % 50 == 7:
+        for code, b_ in ((2048, 2 ** 63 - 2 ** 11), (-2048, -2 ** 63), (100, 2 ** 63), (5, 2 ** 62)):
+            xb = _try(lambda: Fxp(code + b_, True, 16, 0, bias=b_))
+            if xb is not None:
+                _try(lambda: xb())
+                _try(lambda: xb.get_val())
+            xa = _try(lambda: Fxp([code + b_, b_], True, 16, 0, bias=b_))
+            if xa is not None:
+                _try(lambda: xa.get_val())
+                _try(lambda: xa.get_val(index=0))
+        ctx.floor_hit(('read-huge-integer-bias',))
     arr = [float(v) for v in (vs * 3)[:3]]
     a = _try(lambda: Fxp(np.array(arr), s, w, nf, **kw))
     if a is not None:
